@@ -538,7 +538,8 @@ Definition step (P : params) (c : cfg) : cfg :=
             else
               (* _continue_with_task 180-201 *)
               let s1 := resume_contexts x s in
-              mkC (MResume x) (FCont x (active s1) :: fr) (with_active s1 (Some x))
+              if computed x s1 then mkC MExecLoop fr s1      (* a resume() raised: already completed *)
+              else mkC (MResume x) (FCont x (active s1) :: fr) (with_active s1 (Some x))
           | Some (mkFut _ (KItem kind idx _ _)) => mkC MExecLoop fr (pop_task (schedule_batch (kind, idx) s))
           | Some (mkFut _ (KLazy o)) => mkC MExecLoop fr (pop_task (put x (mkFut (Some o) (KLazy o)) s))
           | _ => mkC MExecLoop fr (pop_task s)
